@@ -809,6 +809,61 @@ func abortDuringConnectScenario(a, b epCfg) *Scenario {
 	}
 }
 
+// closeDuringShutdownScenario: A has written a message that never gets through, calls Shutdown
+// (which waits in SHUTDOWN-PENDING) and another goroutine of A calls Close.  The data was not
+// delivered: whatever the order in which the closing write loop, the ending read loop and the
+// Shutdown call see each other, Shutdown does not return nil.
+func closeDuringShutdownScenario(a, b epCfg) *Scenario {
+	return &Scenario{
+		Name:    "close-during-shutdown",
+		Horizon: 120 * time.Second,
+		Body: func(m *Sim) {
+			if !m.Connect(a, b) {
+				m.Failf("connect", "handshake failed: %v %v", m.Err[0], m.Err[1])
+				m.closeFailedTransports()
+				m.CloseBoth()
+				return
+			}
+			sa, _ := m.As[0].OpenStream(1, PayloadTypeWebRTCBinary)
+			m.streamsSeen = append(m.streamsSeen, sa)
+			m.W.killFn = func(p *wpkt) bool {
+				if p.dec == nil || p.from != 0 {
+					return false
+				}
+				for _, c := range p.dec.Chunks {
+					if c.Typ == wDATA || c.Typ == wIDATA {
+						return true
+					}
+				}
+				return false
+			}
+			_, _ = sa.WriteSCTP(payload(1, 0, 100), PayloadTypeWebRTCBinary)
+			var shutErr error
+			ts := m.Go("shutdownA", func() {
+				ctx, cancel := context.WithTimeout(context.Background(), 60*time.Second)
+				defer cancel()
+				shutErr = m.As[0].Shutdown(ctx)
+			})
+			m.Sleep(300 * time.Millisecond)
+			if ts.Done || m.As[0].getState() != shutdownPending {
+				m.Failf("e1.base", "Shutdown is not waiting in SHUTDOWN-PENDING (done=%v state=%s)", ts.Done, getAssociationStateString(m.As[0].getState()))
+			}
+			_ = m.As[0].Close()
+			ok := m.WaitUntil("shutdown-returned", 5*time.Second, func() bool { return ts.Done })
+			switch {
+			case !ok:
+				m.Failf("shutdown.stuck", "Close was called on the side blocked in Shutdown but the Shutdown call has not returned 5 s later")
+			case shutErr == nil:
+				m.Failf("shutdown.nil", "Shutdown returned nil although the association was closed under it with its message unacknowledged (the peer has received no DATA chunk)")
+			}
+			m.Observe("err=%v", shutErr != nil)
+			m.W.killFn = nil
+			m.CloseBoth()
+		},
+		Final: func(m *Sim, x *Exec) { generalVerdicts(m, x, true) },
+	}
+}
+
 // abortDuringShutdownScenario: one side has data it cannot get acknowledged (its DATA packets
 // are lost) and is blocked in Shutdown, waiting in SHUTDOWN-PENDING, when the peer aborts.  The
 // Shutdown call - and, blockWrite, a write blocked behind the pending data - returns promptly
